@@ -125,6 +125,33 @@ func (w *world) close() {
 	os.RemoveAll(w.dir)
 }
 
+// sealedProbe sends one request sealed under the session keys derived from shared on a connection that is
+// not verified and judges what comes back: nothing may be disclosed in plaintext, and nothing may be served
+// under the derivable keys.
+func (w *world) sealedProbe(cl *refctl.Client, shared []byte, rq request, what string) error {
+	a2c, c2a := refctl.SessionKeys(shared)
+	sealer := &refctl.Sealer{Key: c2a}
+	var wire []byte
+	for _, f := range sealer.SealMessage(refctl.BuildRequest(rq.method, rq.path, rq.ctype, rq.body), nil) {
+		wire = append(wire, f...)
+	}
+	cl.SendPlainBytes(wire)
+	raw, _ := cl.ReadRawIdle(120 * time.Millisecond)
+	if d := discloses(raw); d != "" {
+		return fmt.Errorf("%s: the reply discloses %q", what, d)
+	}
+	op := &refctl.Opener{Key: a2c}
+	if plain, _, oerr := op.OpenAll(raw); oerr == nil && len(plain) > 0 {
+		rs, _ := refctl.ParseResponses(plain)
+		for _, r := range rs {
+			if r.Status < 400 || discloses(r.Body) != "" {
+				return fmt.Errorf("%s: served with an encrypted HTTP %d reply (%.80q)", what, r.Status, r.Body)
+			}
+		}
+	}
+	return nil
+}
+
 // ---- the oracle for attacker replies ----
 
 // The last entry is the start of a JPEG file as image/jpeg writes it (start-of-image marker plus the
@@ -463,6 +490,78 @@ func runMachine(t *rapid.T, seed []byte) (w *world) {
 			if derr != nil {
 				w.dropAttacker(i)
 			}
+		},
+		"attacker-hammers-failed-verify-then-ciphertext": func(t *rapid.T) {
+			// many failed exchanges on ONE connection (an attempt counter, a lock-out or a cache is per
+			// connection or per process), then one more exchange and a request sealed under the keys the
+			// attacker derives from that last start request
+			if rapid.IntRange(0, 3).Draw(t, "rarely") > 0 {
+				t.Skip("kept rare")
+			}
+			i := pick()
+			w.dropAttacker(i)
+			a, err := w.attacker(i)
+			checkErr(t, w, err)
+			n := rapid.OneOf(rapid.IntRange(2, 12), rapid.IntRange(2, 40)).Draw(t, "exchanges")
+			kind := rapid.SampledFrom([]string{"finish-unknown", "finish-as-L", "finish-as-accessory", "finish-truncated", "finish-wrong-key", "mixed"}).Draw(t, "frag")
+			note(fmt.Sprintf("att%d runs %d failed pair-verify exchanges (%s) on one connection, then sends ciphertext under its last start's keys", i, n, kind))
+			before := w.snap()
+			kinds := []string{"finish-unknown", "finish-as-L", "finish-as-accessory", "finish-truncated", "finish-wrong-key"}
+			var last *refctl.VerifyState
+			for k := 0; k <= n; k++ {
+				w.nonce++
+				v := refctl.NewVerifyState(append([]byte{byte(w.nonce), byte(w.nonce >> 8), byte(i)}, w.seed...))
+				r, derr := a.cl.Do("POST", "/pair-verify", refctl.ContentTLV8, refctl.VerifyM1(v.EphPublic))
+				checkErr(t, w, judgeLenient("pair-verify start", r, derr, a.cl))
+				if derr != nil || r.Status != 200 {
+					break
+				}
+				if m2, perr := v.HandleVerifyM2(r.Body, w.accLTPK); perr != nil || m2.HasError {
+					break
+				}
+				last = v
+				fk := kind
+				if fk == "mixed" {
+					fk = kinds[k%len(kinds)]
+				}
+				sign := func(name string) []byte {
+					info := append(append(append([]byte{}, v.EphPublic...), []byte(name)...), v.AccEph...)
+					return refctl.EncodeTLV8([]refctl.Item{{Tag: refctl.TagIdentifier, Value: []byte(name)}, {Tag: refctl.TagSignature, Value: ed25519.Sign(w.A.LTSK, info)}})
+				}
+				var body []byte
+				switch fk {
+				case "finish-unknown":
+					body = refctl.VerifyM3(v.Key, sign(w.A.ID))
+				case "finish-as-L":
+					body = refctl.VerifyM3(v.Key, sign(w.L.ID))
+				case "finish-as-accessory":
+					body = refctl.VerifyM3(v.Key, sign(w.acc.Txt()["id"]))
+				case "finish-truncated":
+					body = refctl.EncodeTLV8([]refctl.Item{{Tag: refctl.TagState, Value: []byte{3}}, {Tag: refctl.TagEncryptedData, Value: []byte{1, 2, 3}}})
+				case "finish-wrong-key":
+					body = refctl.VerifyM3(bytes.Repeat([]byte{9}, 32), sign(w.L.ID))
+				}
+				r, derr = a.cl.Do("POST", "/pair-verify", refctl.ContentTLV8, body)
+				what := fmt.Sprintf("unverified connection, failed pair-verify exchange %d of %d on this connection (%s)", k+1, n+1, fk)
+				checkErr(t, w, judgeLenient(what, r, derr, a.cl))
+				if derr == nil && r.Status == 200 {
+					if m4, perr := refctl.ParseVerifyM4(r.Body); perr == nil && m4.State == 4 && !m4.HasError {
+						checkErr(t, w, fmt.Errorf("%s was answered with success", what))
+					}
+				}
+				if derr != nil {
+					last = nil
+					break
+				}
+			}
+			if last != nil && last.Shared != nil {
+				rq := w.protectedRequest(t)
+				what := fmt.Sprintf("unverified connection after %d failed pair-verify exchanges, request sealed under the keys of its last start: %s %s", n+1, rq.method, rq.path)
+				checkErr(t, w, w.sealedProbe(a.cl, last.Shared, rq, what))
+				w.flags["ciphertext-after-many-failed-verifies"] = true
+			}
+			checkErr(t, w, w.unchanged(before, "repeated failed pair-verify exchanges"))
+			w.dropAttacker(i)
 		},
 		"attacker-ciphertext-request": func(t *rapid.T) {
 			i := pick()
